@@ -103,6 +103,24 @@ def worker(unit, emit):
             for script in scripts1[::p['opt_stride']]:
                 for s, d in inputs.concretise(base, script, rnd, k=1):
                     rec(s, d, fo)
+    # shorter and longer members of the same family: the leading components of a number written with separators (an ISIL that
+    # is its agency prefix alone), and the short alphanumeric constants of the module's source as tail (a branch code, a
+    # version suffix) -- rec() keeps the ones the validator accepts
+    import re as _re
+    tails = [L for L in inputs.literals(mod, minlen=1, maxlen=4, cap=200) if L.isalnum() and L.isascii()][:40]
+    for base in bases:
+        parts = [q for q in _re.split(r'([-/ .:])', base)]
+        for k in range(1, len(parts), 2):
+            rec(''.join(parts[:k]), 'leading components', {})
+            rec(''.join(parts[:k + 1]), 'leading components and separator', {})
+        try:
+            cb = mod.compact(base)
+        except Exception:
+            continue
+        for L in tails:
+            if len(L) < len(cb):
+                rec(cb[:-len(L)] + L, 'literal tail %r' % L, {})
+            rec(cb + L, 'literal appended %r' % L, {})
     lits = inputs.literals(mod, cap=p['lits'])
     for base in bases[:p['lit_bases']]:
         for s in inputs.substitute_tokens(base, lits):
